@@ -137,6 +137,20 @@ def DC.concludePar (s : DC) : M DC :=
     (({ s with openPars := s.openPars.dropLast } : DC).setCaret (some 4) none) >>= fun s1 =>
     s1.appendAtCaret (.par p)
 
+/-- `conclude_implicit_paragraph`, called (by `TagRunner.open` / `close`) for an element that has a depth `d`: a paragraph
+that was opened implicitly for inline content outside any `w:p` ends where the next block begins or the enclosing block ends -/
+def DC.flushImplicit (s : DC) (d : Option Nat) : M DC :=
+  match d with
+  | none => pure s
+  | some _ =>
+    match s.openPars.getLast? with
+    | some p => if p.elem.isNone then s.concludePar else pure s
+    | none => pure s
+
+/-- the first two lines of `TagRunner.open`: close an implicit paragraph (if the element has a depth), then move the caret -/
+def DC.setCaretOpen (s : DC) (d : Option Nat) (name : Option Str) : M DC :=
+  (s.flushImplicit d) >>= fun s0 => s0.setCaret d name
+
 /-- the `_open_par` property: create an anonymous paragraph if none is open -/
 def DC.ensurePar (html : Bool) (s : DC) : M DC :=
   if s.openPars.isEmpty then s.commencePar html none false else pure s
